@@ -559,6 +559,8 @@ class Interp(object):
     def _contract_for(self, fv):
         key = (fv.module.name, fv.qualname)
         c = self.contracts.get(key)
+        if c is not None and getattr(c, 'inline_at_calls', False):
+            return None         # verified on its own, but callers execute the real body
         if c is not None and getattr(self, 'verifying', None) == key and not c.recursive_ok:
             return None         # the function under verification is executed, not summarised
         return c
@@ -1129,7 +1131,11 @@ class Interp(object):
             if op == 'Mod' and isinstance(a, str):
                 return '<fmt>'
             if op == 'Mult':
-                tp, cnt = (a, b) if isinstance(a, tuple) else (b, a)
+                tp, cnt = (a, b) if isinstance(a, (tuple, list)) else (b, a)
+                if isinstance(tp, list) and isinstance(cnt, Sym):
+                    k = self.concretize(cnt)
+                    if k is not None:
+                        return tp * k
                 if isinstance(tp, tuple) and len(tp) == 1 and isinstance(cnt, Sym):
                     n = z3.simplify(term(cnt))
                     v = tp[0]
@@ -1149,6 +1155,9 @@ class Interp(object):
             return Sym(ta * tb)
         if op == 'Pow':
             if isinstance(a, int) and a == 2:
+                kk = z3.simplify(tb)
+                if z3.is_int_value(kk) and kk.as_long() >= 0:
+                    return 2 ** kk.as_long()
                 if not st.prove_now(tb >= 0):
                     raise Unsupported('2 ** k with k possibly negative (float result)')
                 return Sym(T.pow2(tb), pow2_of=tb)
@@ -1198,6 +1207,16 @@ class Interp(object):
         if op == 'BitXor':
             return Sym(T.bxor(ta, tb))
         raise Unsupported('binop %s' % op)
+
+    def concretize(self, v, lo=-1, hi=33):
+        """the Python int a symbolic value is pinned to by the path condition (small range), else None"""
+        t = z3.simplify(term(v))
+        if z3.is_int_value(t):
+            return t.as_long()
+        for k in range(lo, hi):
+            if self.st.check_sat([t == k]) != z3.unsat:
+                return k if self.st.prove_now(t == k) else None
+        return None
 
     def side(self, goal, name):
         """Side condition of a rewrite: must hold on this path (it is a VC)."""
